@@ -1,6 +1,8 @@
 (* C08 — proofs about Model/Compile.v *)
 From RipV Require Import Base.Prelude Model.Compile.
 
+Ltac conjs := repeat match goal with |- _ /\ _ => split end.
+
 (* ------------------------------------------------------------------ generic list lemmas *)
 Lemma filter_rev' {A} (p : A -> bool) (l : list A) : filter p (rev l) = rev (filter p l).
 Proof.
@@ -434,7 +436,7 @@ Lemma late_checkpoint_refuted :
     /\ find (fun f => is_msg f && (a <? fseq f)) l = Some g
     /\ compile unfixed_params no_texts (l ++ later) a <> compile unfixed_params no_texts l a.
 Proof.
-  exists s9_log, s9_later, 2, (mkf 3 BMsg). repeat split; try (vm_compute; reflexivity).
+  exists s9_log, s9_later, 2, (mkf 3 BMsg). conjs; try (vm_compute; reflexivity).
   vm_compute. discriminate.
 Qed.
 
@@ -444,7 +446,7 @@ Lemma ignores_after_cut_example :
   /\ find (fun f => is_msg f && (2 <? fseq f)) s9_log = Some (mkf 3 BMsg)
   /\ compile fixed_params no_texts (s9_log ++ s9_later) 2 = compile fixed_params no_texts s9_log 2
   /\ compile fixed_params no_texts s9_log 2 <> None.
-Proof. repeat split; try (vm_compute; reflexivity). vm_compute. discriminate. Qed.
+Proof. conjs; try (vm_compute; reflexivity). vm_compute. discriminate. Qed.
 
 (* ------------------------------------------------------------------ the read paths agree *)
 Lemma lastn_app_ge {A} n (a b : list A) : (n <= length b)%nat -> lastn n (a ++ b) = lastn n b.
@@ -677,14 +679,14 @@ Qed.
 Fixpoint ex_msgs (n : nat) (s : N) : log :=
   match n with O => [] | S k => mkf s BMsg :: mkf (s + 1) (BRunEnded s s) :: mkf (s + 2) BOther :: ex_msgs k (s + 3) end.
 Definition ex_log : log := mkf 0 BOther :: ex_msgs 20 1.
-Definition ex_tail : log := skipn 9 (filter mr_keep ex_log).
+Definition ex_tail : log := skipn 6 (filter mr_keep ex_log).
 Lemma paths_agree_example :
   valid_log ex_log = true /\ wf_refs ex_log = true /\ cut_point ex_log 58 = Some 60
-  /\ filter mr_keep ex_log = firstn 9 (filter mr_keep ex_log) ++ ex_tail
-  /\ firstn 9 (filter mr_keep ex_log) <> []
+  /\ filter mr_keep ex_log = firstn 6 (filter mr_keep ex_log) ++ ex_tail
+  /\ firstn 6 (filter mr_keep ex_log) <> []
   /\ (16 <= count_msgs_upto 60 ex_tail)%nat
   /\ tail_cut ex_tail (head_seq ex_log) 58 = Some 60.
-Proof. repeat split; try (vm_compute; reflexivity); try (vm_compute; lia). vm_compute. discriminate. Qed.
+Proof. conjs; try (vm_compute; reflexivity); try (vm_compute; discriminate); try (vm_compute; lia). Qed.
 
 (* ------------------------------------------------------------------ exact dependence for BOTH visibility rules:
    decision and bundle are a function of the frames at or before the cut and of the visible checkpoint frames *)
@@ -748,4 +750,4 @@ Lemma ignores_after_cut_general_example :
   /\ existsb (is_anchor 2) s9_log = true
   /\ find (fun f => is_msg f && (2 <? fseq f)) s9_log = Some (mkf 3 BMsg)
   /\ forallb (fun f => negb (visible false (3 - 1) f)) [mkf 4 BMsg; mkf 5 (BCkpt true 4 0); mkf 6 (BRunEnded 0 1)] = true.
-Proof. repeat split; vm_compute; reflexivity. Qed.
+Proof. conjs; vm_compute; reflexivity. Qed.
